@@ -612,7 +612,16 @@ class MetaClass(object):
              
             kwargs = dict()
             for key, value in link.key_map.items():
-                kwargs[key] = referential_attributes[value]
+                ref_value = referential_attributes[value]
+                ref_type = (self.attribute_type(value) or '').upper()
+                if (ref_value is None or
+                    (ref_type == 'UNIQUE_ID' and ref_value == 0) or
+                    (ref_type == 'STRING' and ref_value == '')):
+                    # null referential values do not refer to anything
+                    kwargs = None
+                    break
+                
+                kwargs[key] = ref_value
             
             if not kwargs:
                 continue
